@@ -124,9 +124,12 @@ func Finalizing(ctx interface{}) error {
 			return nil
 		}
 
+		// the job store is local to this node (a witness that was not a witness yet, or has lost
+		// its jobs, has no broadcast job): there is nothing for it to do then, but the state of the
+		// tracker, which is chain state, moves on as on every other node
 		bjob, err := context.JobStore.GetJob(tracker.GetJobID(ethereum.BusyBroadcasting))
 		if err != nil {
-			return errors.Wrap(err, "failed to get job")
+			return nil
 		}
 
 		if !bjob.IsDone() || bjob.IsFailed() {
